@@ -6,6 +6,8 @@ ids = [json.loads(l)['id'] for l in open(os.path.join(ROOT, 'properties.jsonl'))
 TECH = 'bounded symbolic execution of the clang-14 LLVM IR of the real sources (own path-forking executor, engine S), assertions and branch feasibility decided by z3; counterexamples replayed on the g++ build'
 NOTE = 'Trusted: clang-14 -O1 lowering, engine S (validated on every run by concrete differential runs against the native build), z3, the environment models listed in the evidence (operator new/delete never fail; libstdc++ out-of-line functions modelled). Nothing is claimed outside the bounds recorded in the evidence.'
 CLAIMED = {
+ 'C07': ('4 C07', 'Declaration histories of length K (quick 4, thorough 5) over 3x3 (name,type) pairs covering all eight declaration kinds, with a shadow model checked after every step (entry order, product type, name lookup, selection by type, name/type/master/decl_set of every declaration); homogeneous scopes with 0..3 members.'),
+ 'C12': ('4 C12', 'Histories of K region-opening operations (13 constructs) under symbolically chosen parents (arbitrary depth and creation order within K; quick 3, thorough 4): enclosing/owner/global/outward walk; handler region shape; member home regions, fully symbolic nesting level, positions; units and modules.'),
  'C01': ('4 C01', 'Two requests to every type constructor over address-sorted operand pools, long and short request forms chosen symbolically; mixed-constructor histories; normal forms with a symbolic linkage spelling; products/sums through warehouses and caller-owned sequences with symbolic lengths: same node <=> same canonical arguments on every path. Tree shapes under longer histories are C08.'),
  'C03': ('4 C03', 'Interning histories of words with fully symbolic bytes (all 256 values) and boundary lengths, symbolic hash values; pool roll-over and oversize paths with the cursor placed near the pool end; arena arithmetic for symbolic lengths; reserved-word binary search vs linear scan for one fully symbolic word up to 18 bytes.'),
  'C04': ('4 C04', 'Two requests (and request/other/request histories) to every name and atom constructor, String- and word-keyed, make_ and get_ forms; two symbolic spellings for word-keyed constructors; one fully symbolic word up to 18 bytes against every Identifier reachable through the Lexicon.'),
